@@ -551,6 +551,9 @@ func (c *codegen) seq(list []ast.Stmt, k cont) []string {
 		}
 		return c.ret(x)
 	case *ast.IfStmt:
+		if taken, isConst := c.constCond(x); isConst { // code_cblift.go: `if debug {…}` on a boolean constant of the package
+			return c.seq(append(append([]ast.Stmt{}, taken...), rest...), k)
+		}
 		return c.ifStmt(x, rest, k)
 	case *ast.SwitchStmt:
 		if d := c.desugarSwitch(x); d != nil {
@@ -1156,6 +1159,9 @@ func (c *codegen) exprStmt(x *ast.ExprStmt) []string {
 	call, ok := x.X.(*ast.CallExpr)
 	if !ok {
 		c.fail(x, "expression statement %s", c.src(x.X))
+	}
+	if li := liftedCalls[call]; li != nil { // code_cblift.go: a lambda-lifted closure as a logged callback
+		return c.loggedCall(li, call)
 	}
 	if sk, srecv, isSP := c.spCalleeOf(call); isSP { // code_opq.go: the results are dropped, the effect is in the hoisted lines
 		c.spCall(sk, srecv, call, true)
